@@ -45,6 +45,7 @@ type pfCellState struct {
 }
 
 const pfCellPrefix = "\x00cell:"
+const pfOptPrefix = "\x00opt:" // env marker: an option Z (a result of a translated function that may be a nil Int / Dec)
 
 func pfOpaque(v string) bool { return strings.HasPrefix(v, "\x00") }
 
@@ -1083,4 +1084,131 @@ func (t *pfTr) rangeStmt(x *ast.RangeStmt, en pfEnv, k func(pfEnv) string) strin
 	return t.expr(x.X, en, "", func(s string) string {
 		return t.loopCore(x, "range_loop "+s+" 0", lvs, x.Body, en, k)
 	})
+}
+
+// ---------------------------------------------------------------------------------------------
+// struct results, results that may be nil
+
+// flattenResults: the per-result values of a return as the components of the generated tuple
+func (t *pfTr) flattenResults(vals []string) ([]string, string) {
+	g := t.f
+	if len(vals) != len(g.resShape) {
+		return nil, "return arity"
+	}
+	var flat []string
+	for i, v := range vals {
+		switch {
+		case g.resShape[i] != nil:
+			if !(strings.HasPrefix(v, pfInPrefix) || strings.HasPrefix(v, pfStPrefix)) {
+				return nil, fmt.Sprintf("result %d is not a struct value", i)
+			}
+			for j, fn := range g.resShape[i] {
+				a, ok := t.structField(v, []string{fn}, g.resFieldK[i][j])
+				if !ok || pfOpaque(a) {
+					return nil, fmt.Sprintf("field %s of result %d is nil or untranslated", fn, i)
+				}
+				flat = append(flat, a)
+			}
+		case g.resNil[i]:
+			switch {
+			case v == pfNil:
+				flat = append(flat, "None")
+			case strings.HasPrefix(v, pfOptPrefix):
+				flat = append(flat, v[len(pfOptPrefix):])
+			case pfOpaque(v):
+				return nil, fmt.Sprintf("result %d is an untranslated value", i)
+			default:
+				flat = append(flat, "(Some "+v+")")
+			}
+		default:
+			if pfOpaque(v) {
+				return nil, fmt.Sprintf("result %d is a nil / untranslated value", i)
+			}
+			flat = append(flat, v)
+		}
+	}
+	return flat, ""
+}
+
+// pfReturnsNilLit: does some return of the function give the literal T{} (a nil Int / Dec) for result i
+func pfReturnsNilLit(fd *ast.FuncDecl, nres, i int) bool {
+	r := false
+	ast.Inspect(fd.Body, func(m ast.Node) bool {
+		switch s := m.(type) {
+		case *ast.FuncLit:
+			return false
+		case *ast.ReturnStmt:
+			if len(s.Results) == nres {
+				if cl, ok := ast.Unparen(s.Results[i]).(*ast.CompositeLit); ok && len(cl.Elts) == 0 {
+					r = true
+				}
+			}
+		}
+		return true
+	})
+	return r
+}
+
+// derefOpt: all[i] is an option Z; the operation dereferences it (nil pointer = Panic)
+func (t *pfTr) derefOpt(at ast.Node, all []string, i int, k func([]string) string) string {
+	if t.pure > 0 {
+		return t.unrec(at, "operation that can panic in a constant initialiser")
+	}
+	r := all[i][len(pfOptPrefix):]
+	v := t.fresh(r)
+	all2 := append([]string{}, all...)
+	all2[i] = v
+	for j, a := range all2 {
+		if j != i && a == all[i] {
+			all2[j] = v
+		}
+	}
+	for _, a := range all2 {
+		if strings.HasPrefix(a, pfOptPrefix) {
+			return t.unrec(at, "two values that may be nil in one operation")
+		}
+	}
+	return "obind (lift_pan " + r + ") (fun " + v + " =>\n" + k(all2) + ")"
+}
+
+// intDecMethod: the tables of Int / Dec methods applied to evaluated operands
+func (t *pfTr) intDecMethod(x *ast.CallExpr, rk, name string, all []string, hint string, one func(string) string) string {
+	pure, mon := pfDecPure, pfDecMon
+	if rk == "int" {
+		pure, mon = pfIntPure, pfIntMon
+	}
+	if f, ok := pure[name]; ok {
+		if s, ok := pfFormat(f, all); ok {
+			return one(s)
+		}
+	}
+	if op, ok := mon[name]; ok {
+		return t.mop(x, op+" "+strings.Join(all, " "), hint, one)
+	}
+	return t.unrec(x, "method of "+rk)
+}
+
+// isFreshAlloc: a call of an argument-free Int / Dec constructor (a freshly allocated big.Int)
+func (t *pfTr) isFreshAlloc(e ast.Expr) bool {
+	c, ok := ast.Unparen(e).(*ast.CallExpr)
+	if !ok || len(c.Args) != 0 {
+		return false
+	}
+	sel, ok := c.Fun.(*ast.SelectorExpr)
+	if !ok || t.pkg.TypesInfo.Selections[sel] != nil {
+		return false
+	}
+	// a function of cosmossdk.io/math, or its alias variable in cosmos-sdk/types (var ZeroDec = math.LegacyZeroDec)
+	f := t.pkg.TypesInfo.Uses[sel.Sel]
+	if f == nil || f.Pkg() == nil || !pfIsMathPkg(f.Pkg().Path()) || f.Parent() != f.Pkg().Scope() {
+		return false
+	}
+	if _, isSig := f.Type().Underlying().(*types.Signature); !isSig {
+		return false
+	}
+	switch f.Name() {
+	case "ZeroInt", "OneInt", "LegacyZeroDec", "ZeroDec", "LegacyOneDec", "OneDec", "LegacySmallestDec", "SmallestDec":
+		return true
+	}
+	return false
 }
